@@ -9,7 +9,7 @@ def shape_floats(sh):
                 P=[[n / d for n, d in pt] for pt in sh["P"]])
 
 
-def build(sh, normalize_kv=None, span_func=None, cls=None, evaluator=None):
+def build(sh, normalize_kv=None, span_func=None, cls=None, evaluator=None, **extra):
     """spec shape (JSON form) -> geomdl object.  Raw (non-[0,1]) knot vectors are kept raw unless normalize_kv=True."""
     from geomdl import BSpline, NURBS
     f = shape_floats(sh)
@@ -21,6 +21,7 @@ def build(sh, normalize_kv=None, span_func=None, cls=None, evaluator=None):
     kw["normalize_kv"] = normalize_kv
     if span_func is not None:
         kw["find_span_func"] = span_func
+    kw.update(extra)
     C = cls or (mod.Curve, mod.Surface, mod.Volume)[pd - 1]
     o = C(**kw)
     if pd == 1:
